@@ -33,7 +33,7 @@ func FrameWithSize(typ string, body []byte, size uint32) []byte {
 
 type Hello struct {
 	Version, RecvBuf, SendBuf, MaxMsg, MaxChunks uint32
-	Endpoint                                    string
+	Endpoint                                     string
 }
 
 type Ack struct {
